@@ -183,7 +183,7 @@ async def _scenario(loop, kind, size, connect, abort, followup, *, delay=1.0, ta
             # *_SAME: on the listener the session already has, without a new EPSV (allowed once the server has closed and
             # forgotten the aborted transfer's data connection; not attempted while an unused one may still be registered)
             same = (followup.endswith("_SAME") and out["server_data_open"] == 0 and raw.passive_port is not None
-                    and connect != "late")  # late: the client's connection may have arrived after the ABOR, unused and registered
+                    and connect != "late" and not connected_after_abort)  # late: the client's connection may have arrived after the ABOR, unused and registered
             followup = followup.split("_")[0]
             if same:
                 c1 = "229"
